@@ -819,9 +819,16 @@ def _percentile(a, q, axis=None, **kw):
 
 
 @implements(np.isclose)
-def _isclose(a, b, rtol=1e-5, atol=1e-8, **kw):
+def _isclose(a, b, rtol=1e-5, atol=1e-8, equal_nan=False):
     a, b = lift(a), lift(b)
-    return np.absolute(a - b) <= atol + rtol * np.absolute(b)
+
+    def one(x, y):
+        x, y = SR(x), SR(y)
+        if x.is_inf or y.is_inf:
+            return SB(x.is_inf and y.is_inf and x.v == y.v)
+        return abs(x - y) <= SR(atol) + SR(rtol) * abs(y)
+    ab, bb = np.broadcast_arrays(a._a, b._a)
+    return SymArray(_map(one, ab, bb), bool)
 
 
 @implements(np.allclose)
